@@ -89,3 +89,12 @@ def c13_or_strict(failure):
 def c13_ebv_strict(failure):
     """EBV of an ill-typed xsd:integer is an error instead of false"""
     return _c13_dev(failure, "ebvStrict")
+
+
+def _c13_search_requests(lines):
+    """driver reply to `search`: one request per line (small instances where the implementation model
+    and the specification model differ)"""
+    return [l for l in lines if l.startswith("q ")][:2000]
+
+
+CONFIG["model_search"] = {"ask": ["search"], "to_requests": _c13_search_requests}
